@@ -1,11 +1,139 @@
+//! chanh: channel / hybrid-lock harness (see README.md, /verif/docs/CHAN_HISTORY.md).
+
+mod dfs;
+mod exec;
+mod gen;
+mod handles;
+mod locks;
+mod monitor;
+mod prog;
+mod val;
+
+use loom::rt;
+use prog::Case;
+use std::io::Write;
+
+fn usage() -> ! {
+  eprintln!(
+    "usage:\n  chanh gen --seed S --cases N [--tier quick|thorough] [--flavours a,b] [--mode seq|conc|async] [--jobs J]\n  chanh run <file>\n  chanh dfs <casefile> [--preempt K] [--max-runs N] [--all]\n  chanh demo"
+  );
+  std::process::exit(2)
+}
+
+pub fn config_for(case: &Case) -> rt::Config {
+  let strategy = match (case.schedule.is_some(), case.strategy.as_str()) {
+    (true, _) => rt::Strategy::Replay,
+    (_, "rand") => rt::Strategy::Random { seed: case.seed },
+    (_, "pct") => rt::Strategy::Pct { seed: case.seed, depth: 3, est_steps: 150 },
+    _ => rt::Strategy::Replay,
+  };
+  rt::Config {
+    strategy,
+    schedule: case.schedule.clone().unwrap_or_default(),
+    budget: case.budget,
+    stack_size: 256 * 1024,
+  }
+}
+
+/// Run one case and render its transcript block.
+pub fn run_and_render(case: &Case) -> String {
+  let res = exec::run_case(case, config_for(case));
+  render(case, &res)
+}
+
+pub fn render(case: &Case, res: &exec::RunResult) -> String {
+  let mut out = String::new();
+  out.push_str(&case.header());
+  out.push('\n');
+  for l in case.program_lines() {
+    out.push_str(&l);
+    out.push('\n');
+  }
+  let sched: Vec<String> = res.outcome.decisions.iter().map(|d| d.chosen.to_string()).collect();
+  if sched.is_empty() {
+    out.push_str("S\n");
+  }
+  for chunk in sched.chunks(64) {
+    out.push_str("S ");
+    out.push_str(&chunk.join(","));
+    out.push('\n');
+  }
+  let mut panic: Option<(usize, String)> = None;
+  for e in &res.events {
+    match e {
+      exec::Ev::Call { tid, op } => out.push_str(&format!("C {} {}\n", tid, op.text())),
+      exec::Ev::Ret { tid, res } => out.push_str(&format!("R {} {}\n", tid, res)),
+      exec::Ev::Panic { tid, msg } => {
+        if panic.is_none() {
+          panic = Some((*tid, msg.clone()));
+        }
+      }
+    }
+  }
+  let status = if let Some(inv) = &res.invalid {
+    format!("invalid:{}", inv)
+  } else {
+    match (&res.outcome.status, &panic) {
+      (rt::Status::Deadlock(b), _) => {
+        format!("deadlock:{}", b.iter().map(|t| t.to_string()).collect::<Vec<_>>().join(","))
+      }
+      (rt::Status::Budget, _) => "budget".to_string(),
+      (rt::Status::Ok, Some((t, m))) => format!("panic:{}:{}", t, m),
+      (rt::Status::Ok, None) => "ok".to_string(),
+    }
+  };
+  out.push_str(&format!("X {}\n", status));
+  if res.outcome.diverged {
+    eprintln!("chanh: case {}: explicit schedule named a non-candidate thread (fell back to default)", case.id);
+  }
+  let complete = res.outcome.status == rt::Status::Ok && res.invalid.is_none();
+  if complete {
+    let spmc = case.flavour.starts_with("spmc");
+    let toks: Vec<String> = res
+      .drops
+      .iter()
+      .map(|(id, c, d)| if spmc { format!("{}:{}/{}", id, d, c) } else { format!("{}:{}", id, d) })
+      .collect();
+    out.push_str(&format!("D {}\n", toks.join(" ")).replace("D \n", "D\n"));
+  }
+  for m in monitor::check(case, res, &status) {
+    out.push_str(&format!("!monitor {} | {}\n", m.0, m.1));
+  }
+  out.push_str("#end\n");
+  out
+}
+
 fn main() {
-  let (tx, rx) = fibre::mpsc::bounded::<u32>(2);
-  let out = loom::rt::run(loom::rt::Config { strategy: loom::rt::Strategy::Random { seed: 7 }, ..Default::default() }, move || {
-    let h = loom::thread::spawn(move || {
-      for i in 0..5 { tx.send(i).unwrap(); }
-    });
-    for _ in 0..5 { println!("{:?}", rx.recv()); }
-    h.join().unwrap();
-  });
-  println!("{:?} steps={} decisions={}", out.status, out.steps, out.decisions.len());
+  // panics inside scheduled threads are caught and reported in the transcript
+  std::panic::set_hook(Box::new(|info| {
+    if std::env::var_os("CHANH_PANIC_TRACE").is_some() {
+      eprintln!("chanh: panic: {}", info);
+    }
+  }));
+  let args: Vec<String> = std::env::args().collect();
+  if args.len() < 2 {
+    usage();
+  }
+  let stdout = std::io::stdout();
+  match args[1].as_str() {
+    "run" => {
+      let Some(path) = args.get(2) else { usage() };
+      let text = std::fs::read_to_string(path).unwrap_or_else(|e| {
+        eprintln!("chanh: cannot read {}: {}", path, e);
+        std::process::exit(2)
+      });
+      let cases = prog::parse_cases(&text).unwrap_or_else(|e| {
+        eprintln!("chanh: {}: {}", path, e);
+        std::process::exit(2)
+      });
+      let mut lock = stdout.lock();
+      for c in &cases {
+        let _ = lock.write_all(run_and_render(c).as_bytes());
+      }
+    }
+    "gen" | "worker" => gen::main(&args[1..]),
+    "dfs" => dfs::main(&args[2..]),
+    "demo" => gen::demo(),
+    _ => usage(),
+  }
 }
